@@ -232,6 +232,7 @@ impl<L: Language> Rule<L> {
       Rule::All(all) => all.inner().iter().any(|r| r.check_cyclic(id)),
       Rule::Any(any) => any.inner().iter().any(|r| r.check_cyclic(id)),
       Rule::Not(not) => not.inner().check_cyclic(id),
+      Rule::NthChild(nth) => nth.check_cyclic(id),
       Rule::Matches(m) => m.rule_id == id,
       _ => false,
     }
